@@ -64,9 +64,11 @@ def oracle(doc_edges: set, cur: str | None, owner, req: str, rid, outcome: str, 
 
 
 class Backend:
-    def __init__(self, kind: str, ctx: Ctx):
+    def __init__(self, kind: str, ctx: Ctx, nested: bool = False):
         self.kind = kind
-        self.app = make_app(kind, ctx.tmp, app_id=f"c01{kind}")
+        self.nested = nested          # requesters are WORKER contexts of one parent runner (same root, different runner ids)
+        self.label = kind + ("+workers-of-one-parent" if nested else "")
+        self.app = make_app(kind, ctx.tmp, app_id=f"c01{kind}{'n' if nested else ''}")
         self.task = self.app.task(T.add)
         self.o = self.app.orchestrator
 
@@ -82,7 +84,12 @@ class Backend:
 
     def set(self, inv_id: str, req, rid) -> str:
         try:
-            self.o.set_invocation_status(inv_id, req, rctx(rid))
+            rc = rctx(rid)
+            if self.nested and rid:
+                from pynenc.runner.runner_context import RunnerContext
+
+                rc = RunnerContext(runner_cls="VerifWorker", runner_id=rid, pid=1, hostname="verif", thread_id=1, parent_ctx=rctx("the-parent-runner"))
+            self.o.set_invocation_status(inv_id, req, rc)
             return "ok"
         except BaseException as e:  # noqa: BLE001
             return _classify(e)
@@ -139,7 +146,7 @@ def run(ctx: Ctx) -> None:
     # ---- (ii) through the public call on both backends ------------------------------------------
     clock = VirtualClock().install()
     try:
-        backs = [Backend("mem", ctx), Backend("sqlite", ctx)]
+        backs = [Backend("mem", ctx), Backend("sqlite", ctx), Backend("mem", ctx, nested=True), Backend("sqlite", ctx, nested=True)]
         owners2 = OWNERS if not ctx.quick else OWNERS
         reqrs2 = REQUESTERS if not ctx.quick else [None, "rA", "rB"]
         per_backend: dict[str, list] = {}
@@ -167,30 +174,32 @@ def run(ctx: Ctx) -> None:
             nd = 0
             for k, (cur, owner, req, rid, out, before, after) in enumerate(res):
                 ctx.count()
-                ctx.distinct((b.kind, cur.value, owner, req.value, rid, out))
+                ctx.distinct((b.label, cur.value, owner, req.value, rid, out))
                 m_set, m_get = mouts[3 * k + 1], mouts[3 * k + 2]
                 i_get = f"{after[0]} {tok(after[1])} {after[2]}" if after else "err keyerror"
                 i_set = out if out != "ok" else f"ok {i_get}"
                 if (i_set, i_get) != (m_set, m_get):
                     nd += 1
                     if nd <= 5:
-                        ctx.obligation(f"correspondence set_invocation_status[{b.kind}] vs Orch.setStatus", False,
+                        ctx.obligation(f"correspondence set_invocation_status[{b.label}] vs Orch.setStatus", False,
                                        f"cur={cur.value} owner={owner!r} req={req.value} rid={rid!r}: impl={i_set!r}/{i_get!r} model={m_set!r}/{m_get!r}")
                 v = oracle(doc_edges, cur.name, owner, req.name, rid, out, before, after)
                 if v:
-                    ctx.report(f"step[{b.kind}]:{cur.value}:{owner}:{req.value}:{rid}", f"[{b.kind}] {v}",
-                               {"kind": "public-step", "backend": b.kind, "cur": cur.value, "owner": owner, "req": req.value, "rid": rid})
-            ctx.obligation(f"correspondence (ii): set_invocation_status on {b.kind} == Orch.setStatus ({len(res)} injected states x requests)",
+                    ctx.report(f"step[{b.label}]:{cur.value}:{owner}:{req.value}:{rid}", f"[{b.label}] {v}",
+                               {"kind": "public-step", "backend": b.kind, "nested": b.nested, "cur": cur.value, "owner": owner, "req": req.value, "rid": rid})
+            ctx.obligation(f"correspondence (ii): set_invocation_status on {b.label} == Orch.setStatus ({len(res)} injected states x requests)",
                            nd == 0, f"{nd} disagreements")
-            per_backend[b.kind] = [(r[4], r[6][:2] if r[6] else None) for r in res]
+            per_backend[b.label] = [(r[4], r[6][:2] if r[6] else None) for r in res]
         # backends identical
-        diff = [i for i, (a, c) in enumerate(zip(per_backend["mem"], per_backend["sqlite"])) if a != c]
-        if diff:
-            ctx.report("mem-vs-sqlite:single-step", f"in-memory and SQLite orchestrators differ on {len(diff)} single steps, first index {diff[0]}",
-                       {"kind": "backend-diff", "index": diff[0]})
+        for other in ("sqlite", "mem+workers-of-one-parent", "sqlite+workers-of-one-parent"):
+            diff = [i for i, (a, c) in enumerate(zip(per_backend["mem"], per_backend[other])) if a != c]
+            if diff:
+                ctx.report(f"mem-vs-{other}:single-step", f"the in-memory orchestrator with plain runner contexts and [{other}] differ on {len(diff)} single steps, first index {diff[0]}",
+                           {"kind": "backend-diff", "index": diff[0], "other": other})
         ctx.sample({"kind": "public-step", "backend": "sqlite", "cur": "running", "owner": "rA", "req": "success", "requester": "rA",
                     "impl": per_backend["sqlite"][0]})
 
+        backs = backs[:2]
         # unknown id (no record at all)
         for req in statuses:
             outs_u = {}
@@ -302,5 +311,6 @@ def run(ctx: Ctx) -> None:
 
 
 def replay(data: dict) -> int:
-    print(data)
-    return 0
+    from harness.common import replay_by_rerun
+
+    return replay_by_rerun("C01", run, data)
